@@ -35,7 +35,9 @@ def kf_pytz_lmt_rounding(fl):
 
     a, b = dt_.datetime.fromisoformat(fl["src"]), dt_.datetime.fromisoformat(fl["got"])
     da, db = a.utcoffset().total_seconds(), b.utcoffset().total_seconds()
-    return a.replace(tzinfo=None) == b.replace(tzinfo=None) and da % 60 == 0 and db % 60 != 0 and abs(da - db) < 60
+    # usually the wall clock is kept; when the rounded-offset wall time falls into the gap that ends the LMT era (America/Sao_Paulo
+    # 1914-01-01 00:00:27) the usual gap normalisation moves it as well - same cause, so the wall clock is not part of the region
+    return da % 60 == 0 and db % 60 != 0 and abs(da - db) < 60
 
 
 def run(ctx):
